@@ -295,6 +295,8 @@ AtomsSmall ==
 (* per eightbyte (union {long double; long[2]} is INTEGER,INTEGER), X87UP left alone or X87 merged with SSE is MEMORY *)
 AtomsLd == {F("ldouble"), F("long"), F("char"), F("double"), A("long", 2), A("int", 3), A("char", 3), B("long", 40)}
 
+(* bit-fields that end exactly on an eightbyte boundary (bit 63 / bit 127) next to SSE and INTEGER members *)
+AtomsEdge == {F("int"), F("double"), F("float"), B("uint", 24), B("uint", 8), B("uint", 32), B("llong", 64)}
 AtomsMicro == {F("char"), F("double"), B("int", 5)}
 
 AtomsTiny == {F("char"), F("int"), F("double"), F("float"), F("long"), B("int", 5), B("uchar", 7), U("int", 0)}
